@@ -14,7 +14,11 @@ import (
 // all four placeholders are substituted, and essence = supertype "/" subtype.
 func VerifC20FromItems() {
 	saved := config.Parsed.Media.Hook
-	config.Parsed.Media.Hook = []string{"prog", "%url", "%mimetype", "%supertype", "%subtype"}
+	prog := "prog"
+	if !verifrt.Symbolic() {
+		prog = nativeDumpHook()
+	}
+	config.Parsed.Media.Hook = []string{prog, "%url", "%mimetype", "%supertype", "%subtype"}
 	defer func() { config.Parsed.Media.Hook = saved }()
 
 	mediaTypes := []any{nil, "video/mp4", "image/png; q=1", "garbage"}
@@ -65,8 +69,12 @@ func VerifC20FromItems() {
 		s.Update(k)
 		verifrt.Settle()
 	}
-	if verifrt.Symbolic() && execRec.called {
-		a := execRec.args
+	called, a := execRec.called, execRec.args
+	if !verifrt.Symbolic() {
+		waitNotMode(s, opening)
+		a, called = tryReadDump(prog)
+	}
+	if called {
 		verifrt.Assert(len(a) == 4, "four-arguments")
 		if len(a) == 4 {
 			verifrt.Assert(a[0] != "" && a[0] != "%url", "url-substituted")
